@@ -723,9 +723,20 @@ def _net_case(case, out):
         return
     if text is not None:
         _inc(out, "net_rtlil_texts")
-        mods = parse_rtlil(text)
-        rv = RtlilEval(mods, "\\top")
-        bad = _net_semantics(case, bits, objs, buf, cd, None, None, rv, out)
+        if (term[0] == "add" and term[1][0] == "sl" and term[2][0] == "sl" and term[1][1][0] == "b" and term[2][1][0] == "b"
+                and term[1][1] != term[2][1] and term[1][4] is None and term[2][4] is None and term[2][2] == term[1][3]):
+            _inc(out, "net_rtlil_two_port_continuing_index_concats")     # a[x:y] + b[y:z] with a is not b
+        # The text comes from the code under test: a reference that does not parse, names an unknown wire, runs
+        # past the end of a wire, connects different widths or drives a bit twice is a finding about the emitted
+        # RTLIL (the fine netlist of the same design was just evaluated successfully), never a harness error.
+        try:
+            mods = parse_rtlil(text)
+            rv = RtlilEval(mods, "\\top")
+            bad = _net_semantics(case, bits, objs, buf, cd, None, None, rv, out)
+        except Exception as e:      # noqa: BLE001
+            _viol(out, f"net:rtlil-malformed:{type(e).__name__}:{cls}:{bufdir}:{kind}:{ts}",
+                  f"{tag}: the emitted RTLIL cannot be interpreted: {type(e).__name__}: {e}", case)
+            return
         if bad:
             _viol(out, f"net:rtlil:{cls}:{bufdir}:{kind}:{ts}:{bad[0]}", f"{tag}: RTLIL: {bad[1]}", case)
     if n and any(inv for _b, _j, inv in bits):
@@ -841,6 +852,19 @@ def _net_cases(rep_quick, steps, maxsum):
                     yield kind, bases, ["add", apply_key(["b", 0], k1), apply_key(["b", 0], k2)], True
             yield kind, bases, ["add", ["b", 0], ["b", 0]], False
             yield kind, bases, ["add", ["inv", ["b", 0]], ["b", 0]], False
+        # slices of two DIFFERENT ports, both orders: includes every pair whose bit indices continue each other
+        # (a[0:2] + b[2:3], b[1:3] + a[0:1], ...), which a back end may wrongly merge into one wire slice
+        for w1, w2 in ((2, 2), (2, 3), (3, 2), (3, 3)):
+            bases = [[w1, 0b101 & ((1 << w1) - 1), "io"], [w2, 0b010 & ((1 << w2) - 1), "io"]]
+            for a1 in range(w1):
+                for e1 in range(a1 + 1, w1 + 1):
+                    for a2 in range(w2):
+                        for e2 in range(a2 + 1, w2 + 1):
+                            if (e1 - a1) + (e2 - a2) > 4:
+                                continue
+                            s1, s2 = ["sl", ["b", 0], a1, e1, None], ["sl", ["b", 1], a2, e2, None]
+                            yield kind, bases, ["add", s1, s2], False
+                            yield kind, bases, ["add", s2, s1], False
         for b1 in allb:
             for b2 in allb:
                 if b1[0] + b2[0] > maxsum or {b1[2], b2[2]} == {"i", "o"}:
@@ -1004,7 +1028,9 @@ def run(rep):
                "B: Buffer(i/o/io) on every simulation-port expression of depth<=1 (+depth-2 families): illegal pairs must raise ValueError, "
                "legal ones are simulated for every (o, oe, pad input) valuation. C: FFBuffer BFS over all (o, oe, pad, clock subset, rst) inputs "
                "in product with one register per direction, pos/neg edge and split domains. D: Buffer/FFBuffer on SingleEnded/Differential "
-               "port expressions: fine netlist and RTLIL text evaluated for every valuation, exactly one buffer cell per port bit, "
+               "port expressions (incl. every concatenation, in both orders, of contiguous slices of two different I/O ports of width 2..3, "
+               "result width<=4): fine netlist and RTLIL text evaluated for every valuation; RTLIL that cannot be parsed/resolved "
+               "(unknown wire, slice past the end of a wire, width mismatch, double driver) is a violation; exactly one buffer cell per port bit, "
                "double use -> DriverConflict. non-trivial = derived (non-base) non-empty expression / simulated or converted case with a "
                "non-zero inversion mask / reachable FFBuffer product state / overlapping two-buffer pair")
     rep.setcov("bounds", {
@@ -1029,7 +1055,8 @@ def run(rep):
             "sim_cases_with_inversion": "simulated buffers with a non-zero mask", "sim_zero_width_cases": "zero-width buffers",
             "sim_loopback_valuations": "bidirectional valuations where the looped-back value differs from the pad input",
             "net_double_use_designs": "expressions using a port bit twice", "net_netlists": "netlists built",
-            "net_rtlil_texts": "RTLIL texts interpreted", "net_illegal_pairs": "illegal pairs on real ports",
+            "net_rtlil_texts": "RTLIL texts interpreted",
+            "net_rtlil_two_port_continuing_index_concats": "RTLIL of a[x:y]+b[y:z] over two different I/O ports", "net_illegal_pairs": "illegal pairs on real ports",
             "two_buffers_conflict": "overlapping two-buffer designs", "two_buffers_disjoint": "disjoint two-buffer designs",
             "ff_states": "FFBuffer product states", "ff_traces_validated": "BFS traces replayed from reset"}
     # a run that already reports violations is not a pass; guards whose counters sit behind a failing step
